@@ -337,6 +337,18 @@ func (e *Exec) sprintf(format string, args []Value) Str {
 		} else {
 			it := args[arg].(Iface)
 			st, ok := it.v.(Str)
+			if sl, isSlice := it.v.(Slice); isSlice && verb == "%s" {
+				// %s of a []byte with symbolic bytes: byte for byte
+				bs := make([]Sc, 0, len(sl))
+				for _, x := range sl {
+					sc, isSc := x.(Sc)
+					if !isSc {
+						return opaque
+					}
+					bs = append(bs, sc)
+				}
+				st, ok = mkStrBytes(bs), true
+			}
 			if !ok || st.opaque || (verb != "%v" && verb != "%s") {
 				return opaque
 			}
